@@ -160,6 +160,12 @@ def readN (n : Nat) (elem : Rd α) : Rd (List α) :=
     let xs ← readN n elem
     pure (x :: xs)
 
+/-- `.ok_or_else(|| err)?` -/
+def liftOpt (o : Option α) (e : Err) : Rd α :=
+  match o with
+  | some a => pure a
+  | none => fail e
+
 /-- `let count = reader.read_u32()? as usize; …loop` -/
 def readVec (elem : Rd α) : Rd (List α) := do
   let count ← readU32
@@ -546,11 +552,9 @@ def decTypeEntry : Rd TypeEntry := do
   let _flags ← readU8
   let _reserved ← readU16
   let nameIdx ← readU32
-  match TypeKind.fromRaw kind with
-  | none => fail (.invalidSection .invalidTypeKind)
-  | some kind =>
-    let data ← decTypeData kind
-    pure { kind, nameIdx := optU32 nameIdx, data }
+  let kind ← liftOpt (TypeKind.fromRaw kind) (.invalidSection .invalidTypeKind)
+  let data ← decTypeData kind
+  pure { kind, nameIdx := optU32 nameIdx, data }
 
 def encTypeData : TypeData → Bytes
   | .primitive p m => encU16 p ++ encU16 m
@@ -680,11 +684,9 @@ def decRef : Rd RefEntry := do
   let ownerId ← readU32
   let offset ← readU32
   let segmentCount ← readU32
-  match RefLocation.fromRaw location with
-  | none => fail (.invalidSection .invalidRefLocation)
-  | some location =>
-    let segments ← readN segmentCount.toNat decSegment
-    pure { location, ownerId, offset, segments }
+  let location ← liftOpt (RefLocation.fromRaw location) (.invalidSection .invalidRefLocation)
+  let segments ← readN segmentCount.toNat decSegment
+  pure { location, ownerId, offset, segments }
 
 def encRef (e : RefEntry) : Bytes :=
   [e.location.toRaw, 0] ++ encU16 0 ++ encU32 e.ownerId ++ encU32 e.offset
@@ -747,19 +749,17 @@ def decPou (minor : UInt16) : Rd PouEntry := do
   let returnTypeId ← readU32
   let ownerPouId ← readU32
   let paramCount ← readU32
-  match PouKind.fromRaw kind with
-  | none => fail (.invalidSection .invalidPouKind)
-  | some kind =>
-    let params ← readN paramCount.toNat (decParam minor)
-    if kind.isClassLike then
-      let cm ← decClassMeta
-      pure { id, nameIdx, kind, codeOffset, codeLength, localRefStart, localRefCount,
-             returnTypeId := optU32 returnTypeId, ownerPouId := optU32 ownerPouId, params,
-             classMeta := some cm }
-    else
-      pure { id, nameIdx, kind, codeOffset, codeLength, localRefStart, localRefCount,
-             returnTypeId := optU32 returnTypeId, ownerPouId := optU32 ownerPouId, params,
-             classMeta := none }
+  let kind ← liftOpt (PouKind.fromRaw kind) (.invalidSection .invalidPouKind)
+  let params ← readN paramCount.toNat (decParam minor)
+  if kind.isClassLike then
+    let cm ← decClassMeta
+    pure { id, nameIdx, kind, codeOffset, codeLength, localRefStart, localRefCount,
+           returnTypeId := optU32 returnTypeId, ownerPouId := optU32 ownerPouId, params,
+           classMeta := some cm }
+  else
+    pure { id, nameIdx, kind, codeOffset, codeLength, localRefStart, localRefCount,
+           returnTypeId := optU32 returnTypeId, ownerPouId := optU32 ownerPouId, params,
+           classMeta := none }
 
 def encPou (minor : UInt16) (e : PouEntry) : Bytes :=
   encU32 e.id ++ encU32 e.nameIdx ++ [e.kind.toRaw, 0] ++ encU16 0
@@ -1732,5 +1732,16 @@ def encodedSize (minor : UInt16) (sections : List Section) : Nat :=
 def Module.wf (m : Module) : Bool :=
   m.major == supportedMajor && decide (m.sections.length < 65536)
     && m.sections.all (Section.wf m.minor) && lenOk (encodedSize m.minor m.sections)
+
+/-- the canonical-offsets clause of `TypeTable.wf`, for any section -/
+def sectionOffsetsCanonical (minor : UInt16) : SectionData → Bool
+  | .typeTable t =>
+    decide (t.offsets = if minor ≥ 1 then computeTypeOffsets (t.entries.map encTypeEntry) else [])
+  | _ => true
+
+
+/-- every type table of the module carries the offsets `encode` would write -/
+def Module.offsetsCanonical (m : Module) : Bool := m.sections.all fun s => sectionOffsetsCanonical m.minor s.data
+
 
 end TrustVerif.C11
